@@ -23,8 +23,8 @@ def run(run):
                 args = lat.noisy_args(run, labels(S))
                 r = '%s %d' % (req, S)
                 with guard(run, '%s(%r)' % (side, args), [pc.line, r]):
-                    tup = call(args)
-                    raw = call(args, raw=True)
+                    tup = call(lat.as_iterable(run, args))
+                    raw = call(lat.as_iterable(run, args), raw=True)
                     got = tomask(tup)
                     if tuple(raw.members()) != tuple(tup) or int(raw) != got:
                         run.fail('%s raw and tuple forms differ' % side, [list(tup), int(raw)], None, [pc.line, r])
